@@ -32,7 +32,7 @@ Print Assumptions C09_indices_distinct.
 
 (* worker processes are only ever started by the supervision pass *)
 Theorem C09_only_supervision_starts_workers : forall s e,
-    e <> ETick -> length (procs (fst (step s e))) = length (procs s).
+    e <> ETick -> (forall k, e <> ETickClose k) -> length (procs (fst (step s e))) = length (procs s).
 Proof. exact only_tick_starts_workers. Qed.
 Print Assumptions C09_only_supervision_starts_workers.
 
